@@ -7,6 +7,10 @@ Proved: the local laws (admission bound, no delay below the limit, the wait is t
 wait, an abandoned waiter leaves the queue and raises); first-attempt traffic moves at most
 `(1/α)·max·T` in every interleaving with waiting traffic (`window_first_attempts`); waiting traffic
 is served no faster than a FIFO server of rate `max` (`fifo_lower_bound`, `vf_ge_sum`).
+For runs of the bucket under the stream discipline (`Disc`: clock readings do not go back, a refused
+stream asks again for the same amount no earlier than told) the bytes granted to reads that waited are
+at most `max·T` (`waited_bytes_le`, an invariant with the virtual finish times of a FIFO server as ghost
+state), and all bytes at most `(1/α)·max·T + max·T` (`total_bytes_le`).
 Disproved: the statement's single bound `1.25·max·T + burst` for *all* traffic together —
 `smoothing_allowance_exceeded` gives, for every burst allowance, a history of one saturated and one
 paced stream that moves 1.4·max·T (finding D17, replayed on the real classes by the check).  What
@@ -752,5 +756,376 @@ example : firstBytes (steady 0 0) (mixPeriod 0) = 4 ∧ grantedBytes (steady 0 0
     (steady 0 0).last = some 0 ∧ RateNonneg (steady 0 0) := by
   refine ⟨?_, (mix_period 0 0 (le_refl _) (by norm_num)).2, rfl, by simp [RateNonneg, steady]⟩
   decide +kernel
+
+
+/-! #### waiting reads of disciplined streams are served no faster than `max_rate`
+
+A *disciplined* run is what `BandwidthLimitedStream`s produce: clock readings do not go back, and a
+stream that was refused asks again for the same amount no earlier than it was told.  For such runs the
+service given to waiting reads (their amounts divided by the limit) never exceeds the elapsed time —
+derived here for runs of the `Bucket` model itself, by an invariant that carries the virtual finish
+times of a FIFO server of rate `max_rate` as ghost state. -/
+
+/-- work of the scheduled requests that the virtual FIFO server has not finished at `τ` -/
+def unfinished (l : List Sched) (vf : Nat → Rat) (τ : Rat) : Rat :=
+  ((l.filter (fun s => decide (τ < vf s.token))).map (·.timeToConsume)).sum
+
+theorem unfinished_nil (vf : Nat → Rat) (τ : Rat) : unfinished [] vf τ = 0 := rfl
+
+theorem unfinished_append (l : List Sched) (x : Sched) (vf : Nat → Rat) (τ : Rat) :
+    unfinished (l ++ [x]) vf τ = unfinished l vf τ + (if τ < vf x.token then x.timeToConsume else 0) := by
+  unfold unfinished
+  rw [List.filter_append, List.map_append, List.sum_append]
+  by_cases h : τ < vf x.token
+  · simp [List.filter, h]
+  · simp [List.filter, h]
+
+theorem unfinished_nonneg (l : List Sched) (vf : Nat → Rat) (τ : Rat) (hn : ∀ s ∈ l, 0 ≤ s.timeToConsume) :
+    0 ≤ unfinished l vf τ := by
+  unfold unfinished
+  apply List.sum_nonneg
+  intro x hx
+  simp only [List.mem_map, List.mem_filter] at hx
+  obtain ⟨s, ⟨hs, _⟩, rfl⟩ := hx
+  exact hn s hs
+
+theorem unfinished_le_sum (l : List Sched) (vf : Nat → Rat) (τ : Rat) (hn : ∀ s ∈ l, 0 ≤ s.timeToConsume) :
+    unfinished l vf τ ≤ schedSum l := by
+  induction l with
+  | nil => simp [unfinished, schedSum]
+  | cons s rest ih =>
+    have h1 := hn s (by simp)
+    have h2 := ih (fun x hx => hn x (by simp [hx]))
+    unfold unfinished schedSum at *
+    by_cases h : τ < vf s.token
+    · simp only [List.filter, h, decide_true, List.map_cons, List.sum_cons]; linarith
+    · simp only [List.filter, h, decide_false, List.map_cons, List.sum_cons]; linarith
+
+/-- changing the ghost value of a token that is not scheduled changes nothing -/
+theorem unfinished_update (l : List Sched) (vf : Nat → Rat) (tok : Nat) (v τ : Rat)
+    (h : ∀ s ∈ l, s.token ≠ tok) : unfinished l (Function.update vf tok v) τ = unfinished l vf τ := by
+  unfold unfinished
+  congr 2
+  apply List.filter_congr
+  intro s hs
+  simp [Function.update, h s hs]
+
+/-- removing a request whose virtual finish lies at or before `τ` does not change the unfinished work at `τ` -/
+theorem unfinished_remove (l : List Sched) (vf : Nat → Rat) (tok : Nat) (τ : Rat) (h : vf tok ≤ τ) :
+    unfinished (l.filter (fun s => s.token != tok)) vf τ = unfinished l vf τ := by
+  unfold unfinished
+  rw [List.filter_filter]
+  congr 2
+  apply List.filter_congr
+  intro s _
+  by_cases hs : s.token = tok
+  · subst hs; simp; exact h
+  · simp [hs]
+
+
+
+/-- ghost state next to the bucket: when each scheduled token may come back (`due`), its virtual finish
+time in a FIFO server of rate `max_rate` (`vf`), that server's latest finish time `V`, all the work ever
+scheduled `Wall` and the service already given to waiting reads `S` (both in seconds: bytes / max_rate) -/
+structure DInv (m t0 : Rat) (b : Bucket) (due vf : Nat → Rat) (V Wall S t : Rat) : Prop where
+  q : QInv b
+  rate : b.maxRate = m
+  acct : S + schedSum b.sched = Wall
+  wall : Wall ≤ V - t0
+  backlog : ∀ τ, t ≤ τ → V - τ ≤ unfinished b.sched vf τ
+  early : ∀ s ∈ b.sched, vf s.token ≤ due s.token
+
+/-- what the invariant is for: the service given to waiting reads never exceeds the elapsed time -/
+theorem DInv.service_le (m t0 : Rat) (b : Bucket) (due vf : Nat → Rat) (V Wall S t : Rat)
+    (h : DInv m t0 b due vf V Wall S t) : S ≤ t - t0 := by
+  have h1 := h.backlog t (le_refl _)
+  have h2 := unfinished_le_sum b.sched vf t h.q.nonneg
+  have h3 := h.acct
+  have h4 := h.wall
+  linarith
+
+theorem not_scheduled_ne (b : Bucket) (tok : Nat) (h : isScheduled b tok = false) : ∀ s ∈ b.sched, s.token ≠ tok := by
+  intro s hs e
+  have : isScheduled b tok = true := by
+    simp only [isScheduled, List.any_eq_true, beq_iff_eq]
+    exact ⟨s, hs, e⟩
+  rw [h] at this; cases this
+
+
+
+theorem record_sched (b : Bucket) (amt : Nat) (now : Rat) :
+    (record b amt now).sched = b.sched ∧ (record b amt now).maxRate = b.maxRate := by
+  unfold record
+  split
+  · exact ⟨rfl, rfl⟩
+  · split <;> exact ⟨rfl, rfl⟩
+
+/-- a read that waited comes back (no earlier than told, same amount) and is granted -/
+theorem dinv_waited (m t0 : Rat) (b : Bucket) (due vf : Nat → Rat) (V Wall S t : Rat) (amt tok : Nat) (now : Rat)
+    (hm : 0 < m) (h : DInv m t0 b due vf V Wall S t) (ht : t ≤ now) (hs : isScheduled b tok = true)
+    (hdue : due tok ≤ now) (hamt : (amt : Rat) / m = ttcOf b tok) :
+    DInv m t0 (consume b amt tok now).1 due vf V Wall (S + (amt : Rat) / m) now := by
+  have hq := (wait_is_queue b amt tok now (by rw [h.rate]; exact hm) h.q).1
+  have hc : (consume b amt tok now).1 = record (unschedule b tok) amt now := by
+    unfold consume; simp [hs]
+  have hsched : (consume b amt tok now).1.sched = b.sched.filter (fun s => s.token != tok) := by
+    rw [hc, (record_sched _ _ _).1]; rfl
+  have hrate : (consume b amt tok now).1.maxRate = m := by
+    rw [hc, (record_sched _ _ _).2]; exact h.rate
+  have hsum := schedSum_filter b.sched tok h.q.nodup
+  -- the entry of `tok`
+  have hent : ∃ s ∈ b.sched, s.token = tok := by
+    simp only [isScheduled, List.any_eq_true, beq_iff_eq] at hs
+    exact hs
+  obtain ⟨s0, hs0, hs0t⟩ := hent
+  have hvf : vf tok ≤ now := by
+    have := h.early s0 hs0
+    rw [hs0t] at this
+    linarith
+  refine ⟨hq, hrate, ?_, h.wall, ?_, ?_⟩
+  · have hsum' : schedSum (b.sched.filter (fun s => s.token != tok)) = schedSum b.sched - ttcOf b tok := by
+      unfold ttcOf; exact hsum
+    rw [hsched, hsum', ← hamt]
+    have hacc := h.acct
+    linarith
+  · intro τ hτ
+    rw [hsched, unfinished_remove b.sched vf tok τ (by linarith)]
+    exact h.backlog τ (by linarith)
+  · intro s hs'
+    rw [hsched] at hs'
+    exact h.early s (List.mem_of_mem_filter hs')
+
+/-- a first-attempt grant changes nothing in the queue -/
+theorem dinv_first (m t0 : Rat) (b : Bucket) (due vf : Nat → Rat) (V Wall S t : Rat) (amt tok : Nat) (now : Rat)
+    (hm : 0 < m) (h : DInv m t0 b due vf V Wall S t) (ht : t ≤ now) (hs : isScheduled b tok = false)
+    (hg : (consume b amt tok now).2 = .granted) :
+    DInv m t0 (consume b amt tok now).1 due vf V Wall S now := by
+  have hq := (wait_is_queue b amt tok now (by rw [h.rate]; exact hm) h.q).1
+  have hc := consume_unsched_granted b amt tok now hs hg
+  have hsched : (consume b amt tok now).1.sched = b.sched := by rw [hc, (record_sched _ _ _).1]
+  have hrate : (consume b amt tok now).1.maxRate = m := by rw [hc, (record_sched _ _ _).2]; exact h.rate
+  refine ⟨hq, hrate, by rw [hsched]; exact h.acct, h.wall, ?_, by rw [hsched]; exact h.early⟩
+  intro τ hτ
+  rw [hsched]
+  exact h.backlog τ (by linarith)
+
+/-- a refusal: the request joins the queue; the wait it is told is at least what the FIFO server needs -/
+theorem dinv_refused (m t0 : Rat) (b : Bucket) (due vf : Nat → Rat) (V Wall S t : Rat) (amt tok : Nat) (now w : Rat)
+    (hm : 0 < m) (h : DInv m t0 b due vf V Wall S t) (ht : t ≤ now) (hs : isScheduled b tok = false)
+    (hr : (consume b amt tok now).2 = .refused w) :
+    DInv m t0 (consume b amt tok now).1 (Function.update due tok (now + w))
+      (Function.update vf tok (max V now + (amt : Rat) / m)) (max V now + (amt : Rat) / m) (Wall + (amt : Rat) / m) S now := by
+  have hwq := wait_is_queue b amt tok now (by rw [h.rate]; exact hm) h.q
+  have hq := hwq.1
+  have hw := (hwq.2 w hr).1
+  rw [h.rate] at hw
+  have hexc : exceeds (projected b amt now) b.maxRate = true := by
+    unfold consume at hr
+    simp only [hs, Bool.false_eq_true, if_false] at hr
+    by_cases hx : exceeds (projected b amt now) b.maxRate = true
+    · exact hx
+    · simp [hx] at hr
+  have hsched : (consume b amt tok now).1.sched = b.sched ++ [{ token := tok, waitDuration := b.totalWait + (amt : Rat) / b.maxRate, timeToConsume := (amt : Rat) / m }] := by
+    have hexc' : exceeds (projected b amt now) m = true := by rw [← h.rate]; exact hexc
+    unfold consume
+    simp [hs, hexc', h.rate]
+  have hrate0 : (consume b amt tok now).1.maxRate = b.maxRate := by
+    unfold consume
+    simp [hs, hexc]
+  have hrate : (consume b amt tok now).1.maxRate = m := by rw [hrate0]; exact h.rate
+  have hne := not_scheduled_ne b tok hs
+  have ha : 0 ≤ (amt : Rat) / m := by positivity
+  have hU0 : ∀ τ, 0 ≤ unfinished b.sched vf τ := fun τ => unfinished_nonneg b.sched vf τ h.q.nonneg
+  have hS0 : 0 ≤ schedSum b.sched := schedSum_nonneg _ h.q.nonneg
+  refine ⟨hq, hrate, ?_, ?_, ?_, ?_⟩
+  · rw [hsched]
+    simp only [schedSum, List.map_append, List.sum_append, List.map_cons, List.map_nil, List.sum_cons, List.sum_nil]
+    have := h.acct
+    unfold schedSum at this
+    linarith
+  · have := h.wall
+    have := le_max_left V now
+    linarith
+  · intro τ hτ
+    rw [hsched, unfinished_append, unfinished_update b.sched vf tok _ τ hne]
+    simp only [Function.update_self]
+    by_cases hlt : τ < max V now + (amt : Rat) / m
+    · rw [if_pos hlt]
+      rcases le_total now V with hv | hv
+      · rw [max_eq_left hv]
+        have := h.backlog τ (by linarith)
+        linarith
+      · rw [max_eq_right hv]
+        have := hU0 τ
+        linarith
+    · rw [if_neg hlt]
+      have := hU0 τ
+      linarith [not_lt.mp hlt]
+  · intro s hs'
+    rw [hsched] at hs'
+    rcases List.mem_append.mp hs' with hs'' | hs''
+    · have hn := hne s hs''
+      simp only [Function.update_of_ne hn]
+      exact h.early s hs''
+    · simp only [List.mem_singleton] at hs''
+      subst hs''
+      simp only [Function.update_self]
+      have hb := h.backlog now ht
+      have hU := unfinished_le_sum b.sched vf now h.q.nonneg
+      rw [hw]
+      rcases le_total now V with hv | hv
+      · rw [max_eq_left hv]; linarith
+      · rw [max_eq_right hv]; linarith
+
+
+
+/-- a run as `BandwidthLimitedStream`s produce it: clock readings do not go back; a token that is scheduled
+comes back no earlier than it was told (`due`) and asks for the amount it was refused -/
+def Disc (m : Rat) : Bucket → (Nat → Rat) → Rat → List (Nat × Nat × Rat) → Prop
+  | _, _, _, [] => True
+  | b, due, t, (amt, tok, now) :: rest =>
+    t ≤ now ∧
+    (if isScheduled b tok = true then
+       due tok ≤ now ∧ (amt : Rat) / m = ttcOf b tok ∧ Disc m (consume b amt tok now).1 due now rest
+     else
+       match (consume b amt tok now).2 with
+       | .granted => Disc m (consume b amt tok now).1 due now rest
+       | .refused w => Disc m (consume b amt tok now).1 (Function.update due tok (now + w)) now rest)
+
+/-- bytes granted to reads that had been told to wait -/
+def waitedBytes (b : Bucket) : List (Nat × Nat × Rat) → Nat
+  | [] => 0
+  | (amt, tok, now) :: rest =>
+    (if isScheduled b tok = true then amt else 0) + waitedBytes (consume b amt tok now).1 rest
+
+def lastTime (t : Rat) : List (Nat × Nat × Rat) → Rat
+  | [] => t
+  | (_, _, now) :: rest => lastTime now rest
+
+theorem disc_run (m t0 : Rat) (hm : 0 < m) (evs : List (Nat × Nat × Rat)) :
+    ∀ (b : Bucket) (due vf : Nat → Rat) (V Wall S t : Rat),
+      DInv m t0 b due vf V Wall S t → Disc m b due t evs →
+      S + ((waitedBytes b evs : Nat) : Rat) / m ≤ lastTime t evs - t0 := by
+  induction evs with
+  | nil =>
+    intro b due vf V Wall S t h _
+    simpa [waitedBytes, lastTime] using h.service_le
+  | cons e rest ih =>
+    obtain ⟨amt, tok, now⟩ := e
+    intro b due vf V Wall S t h hd
+    simp only [Disc] at hd
+    obtain ⟨ht, hd⟩ := hd
+    simp only [waitedBytes, lastTime]
+    by_cases hs : isScheduled b tok = true
+    · simp only [hs, if_true] at hd ⊢
+      obtain ⟨hdue, hamt, hrest⟩ := hd
+      have h' := dinv_waited m t0 b due vf V Wall S t amt tok now hm h ht hs hdue hamt
+      have := ih _ _ _ _ _ _ _ h' hrest
+      push_cast
+      have e : ((amt : Rat) + ((waitedBytes (consume b amt tok now).1 rest : Nat) : Rat)) / m
+          = (amt : Rat) / m + ((waitedBytes (consume b amt tok now).1 rest : Nat) : Rat) / m := by ring
+      rw [e]; linarith
+    · have hs' : isScheduled b tok = false := by simpa using hs
+      simp only [hs', Bool.false_eq_true, if_false, Nat.zero_add] at hd ⊢
+      cases hr : (consume b amt tok now).2 with
+      | granted =>
+        rw [hr] at hd
+        exact ih _ _ _ _ _ _ _ (dinv_first m t0 b due vf V Wall S t amt tok now hm h ht hs' hr) hd
+      | refused w =>
+        rw [hr] at hd
+        exact ih _ _ _ _ _ _ _ (dinv_refused m t0 b due vf V Wall S t amt tok now w hm h ht hs' hr) hd
+
+/-- **Waiting reads are served no faster than `max_rate`, for runs of the bucket itself.**  Start with an
+empty queue at clock reading `t0`; let the streams be disciplined (`Disc`).  Then the bytes granted to
+reads that had to wait are at most `max_rate × (t₁ − t₀)`, `t₁` the last clock reading — together with
+`window_first_attempts` this is what the limiter guarantees: `(1 + 1/α)·max·T` for all traffic, not the
+statement's `1.25·max·T` (D17). -/
+theorem waited_bytes_le (b : Bucket) (due : Nat → Rat) (t0 : Rat) (evs : List (Nat × Nat × Rat))
+    (hm : 0 < b.maxRate) (hempty : b.sched = []) (hw : b.totalWait = 0) (hd : Disc b.maxRate b due t0 evs) :
+    ((waitedBytes b evs : Nat) : Rat) ≤ b.maxRate * (lastTime t0 evs - t0) := by
+  have h0 : DInv b.maxRate t0 b due (fun _ => t0) t0 0 0 t0 := by
+    have hq : QInv b := by
+      refine ⟨?_, ?_, ?_⟩
+      · rw [hw, hempty]; rfl
+      · rw [hempty]; intro s hs; cases hs
+      · rw [hempty]; exact List.nodup_nil
+    refine ⟨hq, rfl, ?_, by simp, ?_, ?_⟩
+    · rw [hempty]; simp [schedSum]
+    · intro τ hτ; rw [hempty, unfinished_nil]; linarith
+    · rw [hempty]; intro s hs; cases hs
+  have := disc_run b.maxRate t0 hm evs b due (fun _ => t0) t0 0 0 t0 h0 hd
+  rw [zero_add, div_le_iff₀ hm] at this
+  linarith
+
+
+
+theorem granted_split (b : Bucket) (evs : List (Nat × Nat × Rat)) :
+    grantedBytes b evs = firstBytes b evs + waitedBytes b evs := by
+  induction evs generalizing b with
+  | nil => rfl
+  | cons e rest ih =>
+    obtain ⟨amt, tok, now⟩ := e
+    simp only [grantedBytes, firstBytes, waitedBytes, ih]
+    by_cases hs : isScheduled b tok = true
+    · have := (one_wait b amt tok now hs).1
+      simp [hs, this]; omega
+    · have hs' : isScheduled b tok = false := by simpa using hs
+      by_cases hg : (consume b amt tok now).2 = .granted
+      · simp [hs', hg]; omega
+      · simp [hs', hg]
+
+/-- **What the limiter does guarantee for all traffic together**: in a disciplined run that starts with an
+empty queue, the bytes granted are at most `(1/α)·max·(t₁ − t₀)` (first attempts, `t₁` the tracker's last
+reading) plus `max·(t_end − t₀)` (reads that waited): the sum of the two allowances. -/
+theorem total_bytes_le (b : Bucket) (due : Nat → Rat) (t0 : Rat) (evs : List (Nat × Nat × Rat))
+    (hm : 0 < b.maxRate) (hempty : b.sched = []) (hw : b.totalWait = 0) (hlast : b.last = some t0) (hr : RateNonneg b)
+    (hd : Disc b.maxRate b due t0 evs) :
+    ∃ t1, (runConsumes b evs).1.last = some t1 ∧
+      ((grantedBytes b evs : Nat) : Rat) ≤ (1 / alpha) * b.maxRate * (t1 - t0) + b.maxRate * (lastTime t0 evs - t0) := by
+  obtain ⟨t1, h1, _, h3⟩ := window_first_attempts evs b t0 hlast hr (le_of_lt hm)
+  refine ⟨t1, h1, ?_⟩
+  have h4 := waited_bytes_le b due t0 evs hm hempty hw hd
+  rw [granted_split]
+  push_cast
+  linarith
+
+/-- non-vacuity: the period of the D17 witness is a disciplined run (stream 1 comes back exactly when told),
+its waited read is the 10-byte one -/
+example : waitedBytes (steady 0 0) (mixPeriod 0) = 10 := by decide +kernel
+
+/-- an executable check of `Disc` (for the examples) -/
+def discB (m : Rat) : Bucket → (Nat → Rat) → Rat → List (Nat × Nat × Rat) → Bool
+  | _, _, _, [] => true
+  | b, due, t, (amt, tok, now) :: rest =>
+    decide (t ≤ now) &&
+    (if isScheduled b tok = true then
+       decide (due tok ≤ now) && decide ((amt : Rat) / m = ttcOf b tok) && discB m (consume b amt tok now).1 due now rest
+     else
+       match (consume b amt tok now).2 with
+       | .granted => discB m (consume b amt tok now).1 due now rest
+       | .refused w => discB m (consume b amt tok now).1 (Function.update due tok (now + w)) now rest)
+
+theorem discB_sound (m : Rat) (evs : List (Nat × Nat × Rat)) :
+    ∀ (b : Bucket) (due : Nat → Rat) (t : Rat), discB m b due t evs = true → Disc m b due t evs := by
+  induction evs with
+  | nil => intro b due t _; trivial
+  | cons e rest ih =>
+    obtain ⟨amt, tok, now⟩ := e
+    intro b due t h
+    simp only [discB, Bool.and_eq_true, decide_eq_true_eq] at h
+    simp only [Disc]
+    refine ⟨h.1, ?_⟩
+    have h2 := h.2
+    by_cases hs : isScheduled b tok = true
+    · simp only [hs, if_true, Bool.and_eq_true, decide_eq_true_eq] at h2 ⊢
+      exact ⟨h2.1.1, h2.1.2, ih _ _ _ h2.2⟩
+    · simp only [hs, if_false] at h2 ⊢
+      cases hr : (consume b amt tok now).2 with
+      | granted => rw [hr] at h2; exact ih _ _ _ h2
+      | refused w => rw [hr] at h2; exact ih _ _ _ h2
+
+example : Disc 10 (steady 0 0) (fun _ => 0) 0 (mixPeriod 0) :=
+  discB_sound 10 _ _ _ _ (by decide +kernel)
+
 
 end S3V.C13
